@@ -123,3 +123,54 @@ def nested_windows_right(sizes, values):
         nested.append(values[:size])
     inverse = np.argsort(order)
     return [nested[i] for i in inverse]
+
+
+def blocks_dropping_the_remainder(values, block=4):
+    out = np.zeros(values.size)
+    for k in range(values.size // block):
+        part = slice(k * block, (k + 1) * block)
+        out[part] = values[part] * 2
+    return out
+
+
+def blocks_with_a_ceiling_count(values, block=4):
+    out = np.zeros(values.size)
+    for k in range(-(-values.size // block)):
+        part = slice(k * block, (k + 1) * block)
+        out[part] = values[part] * 2
+    return out
+
+
+def blocks_with_a_tail(values, block=4):
+    out = np.zeros(values.size)
+    full = values.size // block
+    for k in range(full):
+        out[k * block:(k + 1) * block] = values[k * block:(k + 1) * block] * 2
+    out[full * block:] = values[full * block:] * 2
+    return out
+
+
+def or_default(points, mindist=1.0):
+    """
+    Parameters
+    ----------
+    points : array
+        The points.
+    mindist : float
+        A distance; 0 is allowed.
+    """
+    return points + (mindist or 10.0)
+
+
+def none_default(points, mindist=None):
+    """
+    Parameters
+    ----------
+    points : array
+        The points.
+    mindist : float or None
+        A distance; 0 is allowed.
+    """
+    if mindist is None:
+        mindist = 10.0
+    return points + mindist
